@@ -4,10 +4,17 @@ Same rig as C33 (`props/c33.py`): real classes on the virtual-time loop, one op 
 jump to the earliest live timer, `race…` = the call is made in the loop iteration in which that timer expires, just
 before its callback.  Observed per op: result, futures resolved during the op (Condition: in resolution order; Event:
 sorted by id, because `Event.set` iterates a `set`), `len(_waiters)`, `_timeouts` / `is_set()`, live timer count.
+
+Compound op `["multi", [call, …]]` (Lean: `C34/Multi.lean`): the calls are made back-to-back inside ONE loop iteration
+(no done-callback runs, no timer fires between them), then one full drain.  Calls: Condition wait / notify n / notifyAll /
+cancel; Event wait / set / clear / isSet / cancel.  Event also has `["fireMulti", [call, …]]`: jump to the earliest live
+timer and make the calls from a done-callback of the wait that just failed with TimeoutError (a coroutine that catches
+the TimeoutError of `wait(timeout)` and carries on at once; without a live timer the calls are made right away).  Observed per call: result/exception and the observers right
+after it (stale entries of `_waiters` and stale timer handles included); after the drain: all resolutions + observers.
 """
 import itertools, re
 from core.wire import atom, line
-from props.c33 import Rig, reply_vals, wire_op
+from props.c33 import Rig, exc_name, reply_vals, wire_op
 
 ID = "C34"
 LEAN_TARGETS = ["TornadoModel.C34.Props"]
@@ -16,10 +23,15 @@ THEOREMS = [_TC + n for n in (
     "inv_after", "popN_spec", "liveQueue_is_arrival_order", "notify_wakes_min", "notifyAll_wakes_all", "notify_sets_true",
     "settle_evs_false", "timeout_false_not_counted", "settled_final", "cond_gc_purges",
     "refines_spec", "refines_spec_state",
+    # histories with compound ops (several calls inside one loop iteration), incl. the states between the calls
+    "multi_extends", "multi_inv_after", "multi_inv_inside", "multi_notify_wakes_min", "multi_refines_spec",
+    "multi_refines_spec_state",
 )] + [_TE + n for n in (
     "inv_after", "no_residue", "pending_registered", "set_means_nobody_waits", "wait_when_set", "set_completes",
     "deadline_times_out", "settled_final", "timeout_only_by_own_deadline", "event_wait_iff",
     "refines_spec", "refines_spec_state",
+    "multi_extends", "multi_inv_after", "multi_inv_inside", "multi_no_residue", "multi_set_completes",
+    "multi_settled_final", "multi_wait_when_set", "multi_refines_spec", "multi_refines_spec_state",
 )]
 TRUSTED = [
     "asyncio event loop ordering as abstracted by the model's drain (see C33); gen.with_timeout / chain_future as "
@@ -30,18 +42,31 @@ ASSUMPTIONS = [
     "deadlines of simultaneously scheduled timers are pairwise distinct (generators never reuse a deadline)",
     "the order in which one Event.set() resolves several waiters is not observed (it is the iteration order of a Python set)",
     "notify(n) with n >= 0; the application touches the futures only through cancel()",
+    "compound ops (several calls in one loop iteration) are made from outside a timer callback (`multi`) or from a "
+    "done-callback of the wait that just timed out (`fireMulti`, Event); inside one Condition compound op at most one timed "
+    "wait may already be due (two timers due in the same iteration fire in asyncio's heap order: first assumption); inside "
+    "an Event compound op cancel() is never applied to a *timed* wait after a set() of the same compound op: a timed wait "
+    "returns gen.with_timeout's wrapper, whose completion lags the registered future by a loop iteration (set(); cancel() "
+    "cancels a wait that set() has already woken); the model identifies the two futures, which is exact at op boundaries "
+    "and for every other order of calls (cancel of a timed wait *before* set(), cancel of plain waits anywhere)",
 ]
 RULE = ("op sequences (<=25 ops, <=8 waits) over Condition (wait/notify n/notify_all/fire/cancel/raceNotify/raceCancel) and "
-        "Event (wait/set/clear/fire/cancel/raceSet/raceCancel); non-trivial = Condition: some notify woke a waiter while a "
-        "dead (timed-out or cancelled) waiter existed; Event: a timed wait completed by set and another one timed out")
+        "Event (wait/set/clear/fire/cancel/raceSet/raceCancel), and compound ops (2-5 calls made back-to-back inside one loop "
+        "iteration, then one drain; Event: also from the done-callback of a wait that just timed out); non-trivial = Condition: "
+        "some notify woke a waiter while a dead (timed-out or cancelled) waiter existed; Event: a timed wait completed by set "
+        "and another one timed out")
 EXHAUSTIVE = {"quick": True, "thorough": True}
 CLAUSES = {
     "a condition wakes exactly min(n, live waiters) waiters in arrival order with True": "Cond.notify_wakes_min + Cond.popN_spec + Cond.liveQueue_is_arrival_order + Cond.notify_sets_true (+ notifyAll_wakes_all)",
     "a timed-out wait resolves False and is never counted as notified": "Cond.settle_evs_false + Cond.timeout_false_not_counted + Cond.settled_final",
     "an event's wait completes iff the event is set at or after the call before its deadline, otherwise TimeoutError":
         "Event.event_wait_iff (= wait_when_set + set_completes + set_means_nobody_waits + deadline_times_out + "
-        "timeout_only_by_own_deadline) + Event.settled_final",
-    "finished waits leave no residue": "Event.no_residue + Event.pending_registered (Condition: Cond.cond_gc_purges)",
+        "timeout_only_by_own_deadline) + Event.settled_final; at any point inside a loop iteration (finished waits still "
+        "registered): Event.multi_set_completes + Event.multi_settled_final + Event.multi_wait_when_set + Event.multi_inv_inside",
+    "finished waits leave no residue": "Event.no_residue + Event.pending_registered (Condition: Cond.cond_gc_purges); "
+                                       "with compound ops: Event.multi_no_residue",
+    "for any schedule": "Cond.multi_extends + Event.multi_extends (histories of primitive ops = compound-free histories of run2) + "
+                        "multi_inv_after + multi_inv_inside + Cond.multi_notify_wakes_min + multi_refines_spec + multi_refines_spec_state",
     "checked against a sequential reference model":
         "Cond.refines_spec + Event.refines_spec (output-trace equality Model = Spec, results and resolutions, for every "
         "history) + Cond.refines_spec_state + Event.refines_spec_state; Spec.Cond / Spec.Event are also the oracle "
@@ -50,13 +75,28 @@ CLAUSES = {
 PARALLEL = True
 CASE_TIMEOUT = 120
 LEVEL_NOTE = ("exhaustive sub-domains: quick = every op sequence of length 3 over _CA / _EA (10 / 9 letters) and of length 4 "
-              "over _CA8 / _EA7; thorough = length 4 over _CA / _EA, length 5 over _CA8 / _EA7, length 5-6 over 5-6 letter sub-alphabets")
+              "over _CA8 / _EA7; thorough = length 4 over _CA / _EA, length 5 over _CA8 / _EA7, length 5-6 over 5-6 letter sub-alphabets; "
+              "compound ops: every compound (inside the domain, see _valid) of length 2-3 over _ME7 / _MC7 and of length 4 over _ME5 in the contexts _EPRE / _CPRE "
+              "(prefixes of primitive ops), every fireMulti compound of length 2-3 in the contexts _FPRE (thorough: one more call each, "
+              "and the pulse length 5 over _ME5)")
 
 
 def _model_op(op):
+    if op[0] in ("multi", "fireMulti"):
+        return [atom(op[0]), [_model_op(c) for c in op[1]]]
     if op[0] == "wait":
         return [atom("wait"), op[1]]
     return wire_op(op)
+
+
+def _calls(op):
+    """the calls an op consists of (a primitive op is one call, race variants mapped to the plain call name)"""
+    if op[0] in ("multi", "fireMulti"):
+        return [list(c) for c in op[1]]
+    k = op[0]
+    if k.startswith("race"):
+        k = k[4].lower() + k[5:]
+    return [[k] + list(op[1:])]
 
 
 def run_impl(case):
@@ -67,11 +107,72 @@ def run_impl(case):
     if cond:
         obj._timeouts = case.get("t0", 0)
     conv = (lambda r: {True: 1, False: 0}.get(r, 99)) if cond else (lambda r: 0 if r is None else 99)
+
+    def one(c):
+        """one call of a compound op (raises what the call raises)"""
+        k = c[0]
+        if k == "wait":
+            to = rig.timeout_arg(c[1], c[2] if len(c) > 2 else "rel")
+            rig.track(obj.wait(to) if to is not None else obj.wait(), conv)
+            return "U"
+        if k == "notify":
+            obj.notify(c[1])
+            return "U"
+        if k == "notifyAll":
+            obj.notify_all()
+            return "U"
+        if k == "set":
+            obj.set()
+            return "U"
+        if k == "clear":
+            obj.clear()
+            return "U"
+        if k == "isSet":
+            return obj.is_set()
+        if k == "cancel":
+            return rig.futs[c[1]].cancel() if c[1] < len(rig.futs) else False
+        raise AssertionError(c)
+
+    def many(cs):
+        res = []
+        for c in cs:
+            try:
+                r = one(c)
+            except Exception as e:
+                r = exc_name(e)
+            if cond:
+                res.append([r, len(obj._waiters), obj._timeouts, rig.ntimers()])
+            else:   # last field (impl only, for the statistics): finished futures still registered in `_waiters`
+                res.append([r, obj.is_set(), len(obj._waiters), rig.ntimers(), sum(1 for f in obj._waiters if f.done())])
+        return res
+
+    def fire_multi(cs):
+        """fire the earliest timer; the first tracked future that completes (the wait that timed out) makes the calls from
+        its done-callback"""
+        pre = len(rig.log)
+        box = []
+
+        def react(_f):
+            if not box:
+                box.append(many(cs))
+        pend = [f for f in rig.futs if not f.done()]
+        for f in pend:
+            f.add_done_callback(react)
+        d = rig.lp.fire_next_timer()
+        for f in pend:
+            f.remove_done_callback(react)
+        if not box:                                   # no timer, nothing expired: the calls are made right away
+            rig.call(lambda: box.append(many(cs)))
+        return ["M", None if d is None else int(d - 1000.0)] + box[0], rig.log[pre:]
     outs = []
     for op in case["ops"]:
         k = op[0]
         race = k.startswith("race")
-        if k == "wait":
+        if k == "multi":
+            r, evs = rig.call(lambda op=op: ["M", "U"] + many(op[1]))
+        elif k == "fireMulti":
+            r, evs = fire_multi(op[1])
+        elif k == "wait":
             to = rig.timeout_arg(op[1], op[2] if len(op) > 2 else "rel")
             def f(to=to):
                 rig.track(obj.wait(to) if to is not None else obj.wait(), conv)
@@ -111,8 +212,16 @@ def model_result(case, replies):
     return {"outs": outs, "states": states, "cberrors": []}
 
 
+def _view_res(case, r):
+    """drop the impl-only statistics field of the per-call observations of an Event compound op"""
+    if case["obj"] == "event" and isinstance(r, list) and r and r[0] == "M":
+        return r[:2] + [c[:4] for c in r[2:]]
+    return r
+
+
 def impl_view(case, impl):
-    return {"outs": [o[:-1] for o in impl["outs"]], "states": impl["states"], "cberrors": impl["cberrors"]}
+    return {"outs": [[_view_res(case, o[0])] + o[1:-1] for o in impl["outs"]], "states": impl["states"],
+            "cberrors": impl["cberrors"]}
 
 
 def spec_requests(case, impl):
@@ -126,54 +235,131 @@ def spec_violation(case, impl, replies):
     want = reply_vals(replies[0])[0]
     what = "FIFO condition" if case["obj"] == "cond" else "flag-and-waiting-set event"
     for i, (op, w, g) in enumerate(zip(case["ops"], want, impl["outs"])):
-        if w[0] != g[0]:
-            return "op %d %s: %s says result %r, implementation %r" % (i, op[0], what, w[0], g[0])
+        k = op[0]
+        comp = k in ("multi", "fireMulti")
+        # a compound op: ["M", result of the op itself, result of each call that was made]
+        got = (g[0][:2] + [c[0] for c in g[0][2:]]) if comp and isinstance(g[0], list) else g[0]
+        if w[0] != got:
+            if comp and isinstance(got, list) and len(got) == len(w[0]) and got[:2] == w[0][:2]:
+                j = next(j for j in range(2, len(got)) if got[j] != w[0][j])
+                return "op %d %s: call %d %s: %s says result %r, implementation %r" % (
+                    i, k, j - 2, op[1][j - 2][0], what, w[0][j], got[j])
+            return "op %d %s: %s says result %r, implementation %r" % (i, k, what, w[0], got)
         if w[1] != g[1]:
-            return "op %d %s: %s resolves %r, implementation %r" % (i, op[0], what, w[1], g[1])
+            return "op %d %s: %s resolves %r, implementation %r" % (i, k, what, w[1], g[1])
         if case["obj"] == "event" and g[3] != g[5]:
-            return "op %d %s: residue: %d entries in Event._waiters, %d pending waits" % (i, op[0], g[3], g[5])
+            return "op %d %s: residue: %d entries in Event._waiters, %d pending waits" % (i, k, g[3], g[5])
     return None
 
 
+def _has_call(op, names):
+    return any(c[0] in names for c in _calls(op))
+
+
 def nontrivial(case, impl):
-    evs = [(op[0], e) for op, o in zip(case["ops"], impl["outs"]) for e in o[1]]
+    evs = [(op, e) for op, o in zip(case["ops"], impl["outs"]) for e in o[1]]
     if case["obj"] == "cond":
         dead_at = [i for i, (op, o) in enumerate(zip(case["ops"], impl["outs"]))
                    if any(e[1] in ("C", ["R", 0]) for e in o[1])]
         woke_at = [i for i, (op, o) in enumerate(zip(case["ops"], impl["outs"]))
-                   if op[0] in ("notify", "notifyAll", "raceNotify") and any(e[1] == ["R", 1] for e in o[1])]
+                   if _has_call(op, ("notify", "notifyAll")) and any(e[1] == ["R", 1] for e in o[1])]
         return bool(dead_at and woke_at and min(dead_at) < max(woke_at))
-    timed = {i for i, op in enumerate([o for o in case["ops"] if o[0] == "wait"]) if op[1] is not None}
-    by_set = any(k in ("set", "raceSet") and e[0] in timed and e[1] == ["R", 0] for k, e in evs)
-    return by_set and any(e[1] == "TO" for k, e in evs)
+    waits = [c for op in case["ops"] for c in _calls(op) if c[0] == "wait"]
+    timed = {i for i, c in enumerate(waits) if c[1] is not None}
+    by_set = any(_has_call(op, ("set",)) and e[0] in timed and e[1] == ["R", 0] for op, e in evs)
+    return by_set and any(e[1] == "TO" for op, e in evs)
 
 
 def stats(case, impl):
-    out = ["obj:" + case["obj"], "len:%02d" % (len(case["ops"]) // 5 * 5), "enum" if case.get("enum") else "random"]
+    obj = case["obj"]
+    out = ["obj:" + obj, "len:%02d" % (len(case["ops"]) // 5 * 5), "enum" if case.get("enum") else "random"]
     for op, o in zip(case["ops"], impl["outs"]):
-        out.append("%s:op:%s" % (case["obj"], op[0]))
+        out.append("%s:op:%s" % (obj, op[0]))
         if op[0] in ("notify", "raceNotify"):
             out.append("notify n=%d woke=%d" % (min(op[1], 4), sum(1 for e in o[1] if e[1] == ["R", 1])))
+        if op[0] in ("multi", "fireMulti") and isinstance(o[0], list):
+            out.append("%s:%s:len:%d" % (obj, op[0], len(op[1])))
+            if op[0] == "fireMulti":
+                out.append("event:fireMulti:%s" % ("after-timeout" if o[0][1] is not None else "no-timer"))
+            was_set, stale, flips = None, 0, 0
+            for c, r in zip(op[1], o[0][2:]):
+                out.append("%s:call:%s" % (obj, c[0]))
+                if isinstance(r[0], str) and r[0] != "U":
+                    out.append("%s:res:call:%s:%s" % (obj, c[0], r[0]))
+                if obj == "event":
+                    if c[0] == "set" and was_set is False:
+                        flips += 1
+                        if stale:
+                            out.append("event:set-meets-finished-waiter")     # Event.set iterates a future that is done
+                            if r[2] > stale:
+                                out.append("event:set-meets-finished-and-live-waiters")
+                    was_set, stale = r[1], r[4]
+            if flips >= 2:
+                out.append("event:pulse (set twice in one iteration)")
         for e in o[1]:
-            out.append("%s:ev:%s:%s" % (case["obj"], op[0], e[1] if isinstance(e[1], str) else "R%d" % e[1][1]))
-    if case["obj"] == "cond" and any(o[3] == 0 and p[3] == 100 for p, o in zip(impl["outs"], impl["outs"][1:])):
+            out.append("%s:ev:%s:%s" % (obj, op[0], e[1] if isinstance(e[1], str) else "R%d" % e[1][1]))
+    if obj == "cond" and any(o[3] == 0 and p[3] == 100 for p, o in zip(impl["outs"], impl["outs"][1:])):
         out.append("gc-ran")
     return out
 
 
 def signature(case, impl, why):
-    m = re.match(r"op \S+ (\w+): ", why)
+    m = re.match(r"op \S+ (\w+): (?:call \d+ (\w+): )?", why)
     kind = ("callback-error" if "callback raised" in why else "result" if "says result" in why else
             "residue" if "residue" in why else "resolution")
-    return "%s/%s/%s" % (case["obj"], m.group(1) if m else "?", kind)
+    where = "?" if not m else (m.group(1) if not m.group(2) else "%s.%s" % (m.group(1), m.group(2)))
+    return "%s/%s/%s" % (case["obj"], where, kind)
+
+
+def _valid(case):
+    """domain restrictions of compound ops (see ASSUMPTIONS).
+    Condition: inside one compound op at most one timed wait whose deadline may already be reached (the clock never passes
+    the largest deadline handed out so far, and only moves in fire / race ops); Event resolutions are compared sorted, so
+    Event has no such restriction.  Event: inside a compound op no cancel() of a *timed* wait after a set() of the same
+    compound op.  fireMulti is Event only."""
+    cond = case["obj"] == "cond"
+    maxd, moved = 0, False
+    timed = []                     # per created future: was wait() given a deadline
+    for op in case["ops"]:
+        if op[0] == "fireMulti" and cond:
+            return False
+        comp = op[0] in ("multi", "fireMulti")
+        if comp:
+            if not op[1]:
+                return False
+            bound = maxd if moved else 0
+            if cond and sum(1 for c in op[1] if c[0] == "wait" and c[1] is not None and c[1] <= bound) > 1:
+                return False
+        if op[0] in ("fire", "fireMulti") or op[0].startswith("race"):
+            moved = True
+        seen_set = False
+        for c in _calls(op):
+            if c[0] == "wait":
+                timed.append(c[1] is not None)
+                if c[1] is not None:
+                    maxd = max(maxd, c[1])
+            elif c[0] == "set":
+                seen_set = True
+            elif c[0] == "cancel" and comp and not cond and seen_set and c[1] < len(timed) and timed[c[1]]:
+                return False
+    return True
 
 
 def shrink(case):
     ops = case["ops"]
-    for i in range(len(ops)):
-        yield {**case, "ops": ops[:i] + ops[i + 1:]}
-    if case.get("t0"):
-        yield {**case, "t0": 0}
+
+    def cands():
+        for i in range(len(ops)):
+            yield {**case, "ops": ops[:i] + ops[i + 1:]}
+        for i, op in enumerate(ops):
+            if op[0] in ("multi", "fireMulti"):
+                for j in range(len(op[1])):
+                    cs = op[1][:j] + op[1][j + 1:]
+                    if cs:
+                        yield {**case, "ops": ops[:i] + [[op[0], cs]] + ops[i + 1:]}
+        if case.get("t0"):
+            yield {**case, "t0": 0}
+    return (c for c in cands() if _valid(c))
 
 
 # ------------------------------------------------------------------------------------------ generators
@@ -185,24 +371,34 @@ _EA7 = ["waitN", "waitT", "set", "clear", "fire", "c0", "raceSet"]
 
 
 def _enum_seq(letters):
+    """letters -> ops; a tuple of letters is a compound op, ("F", letters…) a fireMulti (shared deadline counter)"""
     ops, k = [], 0
-    for a in letters:
+
+    def one(a):
+        nonlocal k
         if a == "waitN":
-            ops.append(["wait", None, "rel"])
-        elif a == "waitT":
-            ops.append(["wait", _DL[k], "rel" if k % 2 else "abs"]); k += 1
-        elif a in ("n0", "n1", "n2"):
-            ops.append(["notify", int(a[1])])
-        elif a == "nAll":
-            ops.append(["notifyAll"])
-        elif a == "raceN1":
-            ops.append(["raceNotify", 1])
-        elif a == "raceC0":
-            ops.append(["raceCancel", 0])
-        elif a in ("c0", "c1", "c2"):
-            ops.append(["cancel", int(a[1])])
+            return ["wait", None, "rel"]
+        if a == "waitT":
+            k += 1
+            return ["wait", _DL[(k - 1) % len(_DL)] + 12 * ((k - 1) // len(_DL)), "abs" if k % 2 else "rel"]
+        if a in ("n0", "n1", "n2", "n3"):
+            return ["notify", int(a[1])]
+        if a == "nAll":
+            return ["notifyAll"]
+        if a == "raceN1":
+            return ["raceNotify", 1]
+        if a == "raceC0":
+            return ["raceCancel", 0]
+        if a in ("c0", "c1", "c2"):
+            return ["cancel", int(a[1])]
+        return [a]
+    for a in letters:
+        if isinstance(a, tuple) and a and a[0] == "F":
+            ops.append(["fireMulti", [one(x) for x in a[1:]]])
+        elif isinstance(a, tuple):
+            ops.append(["multi", [one(x) for x in a]])
         else:
-            ops.append([a])
+            ops.append(one(a))
     return ops
 
 
@@ -211,29 +407,125 @@ def _enum_cases(obj, L, alpha):
         yield {"obj": obj, "t0": 0, "ops": _enum_seq(letters), "enum": True}
 
 
-def _rand_case(rng):
+# --- compound ops: every compound of length L over an alphabet of calls, in every context (a prefix of primitive ops that
+# sets up live / finished / timed waiters), followed by probes (does a later set()/notify_all still reach everybody?)
+_ME7 = ["waitN", "waitT", "set", "clear", "isSet", "c0", "c1"]
+_ME5 = ["waitN", "waitT", "set", "clear", "c0"]
+_MC7 = ["waitN", "waitT", "n1", "n2", "nAll", "c0", "c1"]
+_MC5 = ["waitN", "waitT", "n1", "nAll", "c0"]
+_EPRE = [
+    ["waitN"],                           # one live waiter
+    [],                                  # fresh event
+    ["waitN", "waitT"],                  # a plain and a timed (wrapped) live waiter
+    ["waitT", "waitN", "fire"],          # a timed-out wait, a live waiter, the clock has moved
+    ["waitN", "set"],                    # event set, nobody waits
+    ["waitN", "waitN", "c0"],            # a cancelled wait beside a live one
+    ["waitT", "waitT", "waitN"],         # two timers
+]
+_FPRE = [
+    ["waitT", "waitN"],                  # the timed wait expires, a live waiter is there
+    ["waitN", "waitT", "waitT"],         # the earlier of two timers expires
+    ["waitT"],                           # only the expiring wait
+    ["waitN"],                           # no timer: the calls are made right away (= multi)
+]
+_CPRE = [
+    ["waitN", "waitN"],                  # two live waiters
+    [],
+    ["waitN", "waitT", "waitN"],         # live waiters, one with a timer
+    ["waitT", "waitN", "fire"],          # a timed-out waiter in front, the clock has moved
+    ["waitN", "waitN", "c0"],            # a cancelled waiter in front
+    ["waitT", "waitT", "waitN", "n1"],   # a notified waiter's timer handle was just removed
+]
+_EPROBE = ["clear", "set"]
+_CPROBE = ["nAll"]
+
+
+def _enum_multi(obj, L, alpha, prefixes, fire=False):
+    probe = _CPROBE if obj == "cond" else _EPROBE
+    for pre in prefixes:
+        for letters in itertools.product(alpha, repeat=L):
+            comp = (("F",) + tuple(letters)) if fire else tuple(letters)
+            c = {"obj": obj, "t0": 0, "ops": _enum_seq(list(pre) + [comp] + probe), "enum": True}
+            if _valid(c):
+                yield c
+
+
+def _rand_case(rng, pm=None):
     obj = rng.choice(["cond", "event"])
+    cond = obj == "cond"
     L = rng.randint(1, 25)
     pool = list(range(0, 60))
     rng.shuffle(pool)
+    if pm is None:
+        pm = rng.choice([0.0, 0.0, 0.1, 0.2])         # probability that a slot is a compound op
     ops, nw = [], 0
+    maxd, moved, timed = 0, False, []                 # see _valid
     pw = rng.choice([0.3, 0.4, 0.5])
+
+    def timed_wait(avoid_due=False):
+        nonlocal maxd
+        bound = maxd if moved else 0
+        cand = [d for d in pool if d > bound] if avoid_due else pool
+        if not cand:
+            return ["wait", None, "rel"]
+        d = rng.choice(cand) if rng.random() < 0.5 else min(cand)
+        pool.remove(d)
+        return ["wait", d, rng.choice(["abs", "rel"])]
+
+    def compound(fire):
+        nonlocal nw, maxd
+        cs, due, seen_set = [], 0, False
+        bound = maxd if moved else 0
+        for _ in range(rng.choice([2, 2, 3, 3, 4, 5])):
+            x = rng.random()
+            if x < 0.35 and nw < 8:
+                if rng.random() < 0.5:
+                    c = timed_wait(avoid_due=cond and due >= 1)
+                    if c[1] is not None and c[1] <= bound:
+                        due += 1
+                else:
+                    c = ["wait", None, "rel"]
+                nw += 1
+                timed.append(c[1] is not None)
+                cs.append(c)
+            elif x < 0.50:
+                ws = [w for w in range(nw + 1) if not (seen_set and w < nw and timed[w])]
+                cs.append(["cancel", rng.choice(ws)])
+            elif cond:
+                y = rng.random()
+                cs.append(["notify", rng.choice([0, 1, 1, 1, 2, 2, 3, 7])] if y < 0.7 else ["notifyAll"])
+            else:
+                y = rng.random()
+                cs.append(["set"] if y < 0.5 else ["clear"] if y < 0.85 else ["isSet"])
+                seen_set = seen_set or cs[-1][0] == "set"
+        for c in cs:
+            if c[0] == "wait" and c[1] is not None:
+                maxd = max(maxd, c[1])
+        return ["fireMulti" if fire else "multi", cs]
     for _ in range(L):
         x = rng.random()
-        if x < pw and nw < 8:
+        if pm and rng.random() < pm:
+            fire = (not cond) and rng.random() < 0.3
+            ops.append(compound(fire))
+            moved = moved or fire
+        elif x < pw and nw < 8:
             if rng.random() < 0.6:
                 d = pool.pop() if rng.random() < 0.5 else min(pool)
                 if d in pool:
                     pool.remove(d)
                 ops.append(["wait", d, rng.choice(["abs", "rel"])])
+                maxd = max(maxd, d)
             else:
                 ops.append(["wait", None, "rel"])
+            timed.append(ops[-1][1] is not None)
             nw += 1
         elif x < pw + 0.2:
             ops.append(["fire"])
+            moved = True
         elif x < pw + 0.3:
             ops.append([rng.choice(["cancel", "cancel", "raceCancel"]), rng.randrange(0, max(1, nw + 1))])
-        elif obj == "cond":
+            moved = moved or ops[-1][0] == "raceCancel"
+        elif cond:
             y = rng.random()
             if y < 0.55:
                 ops.append(["notify", rng.choice([0, 1, 1, 1, 2, 2, 3, 7])])
@@ -241,11 +533,13 @@ def _rand_case(rng):
                 ops.append(["notifyAll"])
             else:
                 ops.append(["raceNotify", rng.choice([1, 1, 2, 3])])
+                moved = True
         else:
             y = rng.random()
             ops.append(["set"] if y < 0.4 else ["clear"] if y < 0.75 else ["raceSet"])
+            moved = moved or ops[-1][0] == "raceSet"
     c = {"obj": obj, "ops": ops, "t0": 0}
-    if obj == "cond":
+    if cond:
         c["t0"] = rng.choice([0, 0, 0, 97, 98, 99, 100])
     return c
 
@@ -256,7 +550,14 @@ def gen_cases(rng, tier):
         yield from _enum_cases("event", 3, _EA)
         yield from _enum_cases("cond", 4, _CA8)
         yield from _enum_cases("event", 4, _EA7)
-        n_rand = 4000
+        yield from _enum_multi("event", 2, _ME7, _EPRE)
+        yield from _enum_multi("event", 3, _ME7, _EPRE[:3])
+        yield from _enum_multi("event", 4, _ME5, _EPRE[:2])
+        yield from _enum_multi("event", 2, _ME7, _FPRE, fire=True)
+        yield from _enum_multi("event", 3, _ME5, _FPRE[:2], fire=True)
+        yield from _enum_multi("cond", 2, _MC7, _CPRE)
+        yield from _enum_multi("cond", 3, _MC7, _CPRE[:2])
+        n_rand = 3000
     elif tier == "thorough":
         yield from _enum_cases("cond", 4, _CA)
         yield from _enum_cases("event", 4, _EA)
@@ -265,11 +566,24 @@ def gen_cases(rng, tier):
         yield from _enum_cases("cond", 6, ["waitT", "waitN", "n1", "fire", "raceN1"])
         yield from _enum_cases("event", 6, ["waitT", "waitN", "set", "clear", "fire"])
         yield from _enum_cases("event", 5, ["waitT", "set", "clear", "fire", "raceSet", "c0"])
+        yield from _enum_multi("event", 2, _ME7, _EPRE)
+        yield from _enum_multi("event", 3, _ME7, _EPRE)
+        yield from _enum_multi("event", 4, _ME7, _EPRE[:4])
+        yield from _enum_multi("event", 5, _ME5, _EPRE[:3])
+        yield from _enum_multi("event", 2, _ME7, _FPRE, fire=True)
+        yield from _enum_multi("event", 3, _ME7, _FPRE, fire=True)
+        yield from _enum_multi("event", 4, _ME5, _FPRE[:3], fire=True)
+        yield from _enum_multi("cond", 2, _MC7, _CPRE)
+        yield from _enum_multi("cond", 3, _MC7, _CPRE)
+        yield from _enum_multi("cond", 4, _MC7, _CPRE[:3])
+        yield from _enum_multi("cond", 5, _MC5, _CPRE[:2])
         n_rand = 30000
     else:
         n_rand = 4000
-    for _ in range(n_rand):
-        yield _rand_case(rng)
+    for i in range(n_rand):
+        c = _rand_case(rng, pm=0.35 if i % 8 == 7 else None)
+        assert _valid(c), c
+        yield c
 
 
 def describe(case):
